@@ -236,6 +236,7 @@ def gen_model(rng, cfg=None, feats=None):
     realised["two_cont_choices"] = len(cC) >= 2 and len({spec[c]["n"] for c in cC}) >= 2
     realised["two_cont_states"] = len(cS) >= 2
 
+    frozen = []
     pname_pool = ["k", "r", "a"]  # deliberately colliding parameter names
 
     def pname():
@@ -430,7 +431,9 @@ def gen_model(rng, cfg=None, feats=None):
         kind = int(rng.integers(0, 3))
         for a in bargs:
             if a not in uargs and a not in ("income",):
-                # constraint parameter is not a utility parameter: inline its value
+                # constraint parameter is not a utility parameter: inline its value (and freeze
+                # it: perturbing it alone would make the poison reachable by feasible choices)
+                frozen.append(["budget_constraint", a])
                 rhs = re.sub(rf"\b{a}\b", repr(params["budget_constraint"][a]), rhs)
         if "income" in rhs and "income" not in uargs:
             uargs.append("income")
@@ -578,6 +581,7 @@ def gen_model(rng, cfg=None, feats=None):
         "stochastic": stochastic,
         "tables": tables,
         "params": params,
+        "frozen_params": frozen,
     }
     return desc, realised
 
@@ -614,8 +618,9 @@ def gen_initial_states(rng, ref, N, *, off_grid=0.5, out_of_range=0.1, int_cont=
     return init
 
 
-def perturb_params(rng, params):
+def perturb_params(rng, params, frozen=()):
     """Another parameter set for the same model (same structure)."""
+    frozen = {tuple(x) for x in frozen}
     out = {}
     for k, v in params.items():
         if k == "beta":
@@ -632,7 +637,7 @@ def perturb_params(rng, params):
             out[k] = sh
         elif isinstance(v, dict):
             out[k] = {
-                p: (x if isinstance(x, int) else round(x * rnd(rng, 0.7, 1.3) + rnd(rng, -0.02, 0.02), 4))
+                p: (x if (isinstance(x, int) or (k, p) in frozen) else round(x * rnd(rng, 0.7, 1.3) + rnd(rng, -0.02, 0.02), 4))
                 for p, x in v.items()
             }
         else:
